@@ -169,11 +169,16 @@ def run(ctx):
                 "RAW = pathlib.Path('data/raw.csv')\nDOT = pathlib.Path('.')\nUP = pathlib.Path('../x/./y')\nABS = pathlib.Path('/abs/x.csv')\n"
                 "PURE = pathlib.PurePosixPath('rel/y')\nDAY = datetime.date(2021, 3, 1)\nTUP = (pathlib.Path('a/b'), 'c')\n\n"
                 + "".join("def g_%s():\n    return str(%s)\n\n" % (n.lower(), n) for n in ("RAW", "DOT", "UP", "ABS", "PURE", "DAY", "TUP"))
-                + "def f0():\n" + "".join("    dds.keep('/c03/%s', g_%s)\n" % (n.lower(), n.lower()) for n in ("RAW", "DOT", "UP", "ABS", "PURE", "DAY", "TUP"))
+                # ... and a function that imports a (non-accepted) helper module in its body: whether that module is already loaded in
+                # the interpreter when the analysis runs (it is not the first time) must not matter
+                + "def g_lazy():\n    import %s\n    return str(%s.VALUE)\n\n" % (pm + "_lazy", pm + "_lazy")
+                + "def f0():\n" + "".join("    dds.keep('/c03/%s', g_%s)\n" % (n.lower(), n.lower()) for n in ("RAW", "DOT", "UP", "ABS", "PURE", "DAY", "TUP", "LAZY"))
                 + "    return 'ok'\n")
         for d in (base, moved):
             with open(os.path.join(d, pm + ".py"), "w") as fh:
                 fh.write(psrc)
+            with open(os.path.join(d, pm + "_lazy.py"), "w") as fh:
+                fh.write("VALUE = 7\n")
         pmaps = {}
         for v in variants:
             wk = workers[v["name"]]
@@ -184,6 +189,12 @@ def run(ctx):
             r = wk.call(cmd="run", entry=entry)
             res.evaluations += 1
             pmaps[v["name"]] = r["paths"] if r["error"] is None else {"ERROR": json.dumps(r["error"])[:200]}
+            # the same program evaluated again in the same process (on a fresh store): same signatures
+            sd2 = tempfile.mkdtemp(prefix="c3s_", dir=base)
+            wk.call(cmd="store", kind=v.get("store", "memory"), internal_dir=sd2 + "/i", data_dir=sd2 + "/d")
+            r2 = wk.call(cmd="run", entry=entry)
+            res.evaluations += 1
+            pmaps[v["name"] + " (second evaluation in the process)"] = r2["paths"] if r2["error"] is None else {"ERROR": json.dumps(r2["error"])[:200]}
         res.nontrivial("path-valued variables")
         for name, m in pmaps.items():
             if m != pmaps["seed0"] or "ERROR" in m:
